@@ -297,6 +297,22 @@ class GuardStates:
             self._reads[t] = access_paths(cond)
         return (t, pol)
 
+    def _const_assign_fact(self, node: Node) -> Optional[Fact]:
+        """`x = None` / `x = 0` / `x = True` leaves a fact about x (value known after the store)."""
+        a = node.ast
+        if node.kind != "stmt" or not isinstance(a, ast.Assign) or len(a.targets) != 1:
+            return None
+        t, v = a.targets[0], a.value
+        if _path(t) is None or not isinstance(v, ast.Constant):
+            return None
+        if v.value is None:
+            return self._fact(ast.parse(f"{_path(t)} is None", mode="eval").body, True)
+        if isinstance(v.value, bool):
+            return self._fact(ast.parse(_path(t), mode="eval").body, v.value)
+        if isinstance(v.value, (int, str)):
+            return self._fact(ast.parse(f"{_path(t)} == {v.value!r}", mode="eval").body, True)
+        return None
+
     def _kill(self, facts: FrozenSet[Fact], stores: Set[str]) -> FrozenSet[Fact]:
         if not stores or not facts:
             return facts
@@ -340,6 +356,10 @@ class GuardStates:
                     f2 = self._kill(facts, st)
                     if e.cond is not None:
                         f2 = f2 | {self._fact(e.cond, e.pol)}
+                    if e.kind != "exc":
+                        cf = self._const_assign_fact(node)
+                        if cf is not None:
+                            f2 = f2 | {cf}
                     outs.add(f2)
                 tgt = self.state[e.dst]
                 new = outs - tgt
@@ -366,6 +386,10 @@ class GuardStates:
             f2 = self._kill(facts, st)
             if e.cond is not None:
                 f2 = f2 | {self._fact(e.cond, e.pol)}
+            if e.kind != "exc":
+                cf = self._const_assign_fact(node)
+                if cf is not None:
+                    f2 = f2 | {cf}
             out.append([(self.exprs[t], pol) for (t, pol) in sorted(f2)])
         return out
 
